@@ -19,5 +19,15 @@ Definition dispatch (fid : Z) (args : list dyn) : exc dyn :=
   | 2, [vpc; DList replies] =>
       let '(rs, s) := run_reconfigs (py_truthy vpc) (map reply_of replies) init_astate in
       Ok (DTuple [DList (map res_unit rs); DList (map DStr (as_nodes s)); DList (map DStr (as_clients s)); DList (map DStr (as_closed s))])
+  | 3, [vpc; DList steps] =>
+      (* histories with failover bookkeeping in between: a step is a reply (bytes / error tag), (1, server) = failure record, (2, server) = eviction *)
+      let step_of (d : dyn) : astep :=
+        match d with
+        | DTuple [DInt 1; DStr sv] => AFail sv
+        | DTuple [DInt 2; DStr sv] => AEvict sv
+        | _ => AReconf (reply_of d) end in
+      let '(rs, s) := run_asteps (py_truthy vpc) (map step_of steps) init_astate in
+      Ok (DTuple [DList (map res_unit rs); DList (map DStr (as_nodes s)); DList (map DStr (as_clients s)); DList (map DStr (as_closed s));
+                  DList (map DStr (as_failed s)); DList (map DStr (as_dead s))])
   | _, _ => Raise TypeError
   end.
